@@ -51,6 +51,16 @@ CLAIMED = {
              "(caller's table object and cells untouched on normal and exceptional exit) and returns the result columns of that copy.",
         note="Assumed: multiprocessing.Pool.map preserves task order (completion order is irrelevant to it); copy/deepcopy semantics; "
              "evaluation function pure. Not decided: the power flows."),
+    "C30": dict(
+        text="Proof. (a) statelessness: heap/alias obligations from the real text of Diagnostic.__init__ / register_function / "
+             "diagnose_network: fresh kwargs and function list per instance, arguments of a diagnostic function depend only on defaults "
+             "and this call's options, registrations never reach other instances or the module defaults. (b) network unchanged: for "
+             "every class listed in default_diagnostic_functions (read from the source) either the syntactic frame analysis shows "
+             "that nothing reachable from `net` can be stored into, or frame-tracking execution of the real diagnostic() over all paths "
+             "(power flow converging / raising an expected exception at each call) shows every table and column restored on exit.",
+        note="Assumed: the power flow leaves the element tables unchanged (C08); frames of create_impedance/create_switch/create_ward/"
+             "replace_xward_by_ward and read-only topology functions as declared; pandas methods without inplace=True do not mutate. "
+             "Not decided: exits by unexpected exceptions, report()."),
 }
 
 NOT_APPLICABLE = {
